@@ -326,7 +326,7 @@ def gen_ops_random(rng, n):
     for _ in range(n):
         r = rng.random()
         if r < 0.34:
-            tgt = rng.choice(["Base", "A", "B", "C", "D1", "D2", "i1", "i2", "i3"])
+            tgt = rng.choice(["Base", "A", "B", "C", "D1", "D2", "D3", "i1", "i2", "i3", "i4"])
             ops.append(("listen", tgt, rng.choice(EVENTS[:2]), rng.random() < 0.3, rng.random() < 0.4,
                         rng.random() < 0.2, rng.random() < 0.25))
         elif r < 0.44:
@@ -334,9 +334,9 @@ def gen_ops_random(rng, n):
         elif r < 0.49:
             ops.append(("contains", rng.randrange(50)))
         elif r < 0.55:
-            ops.append(("subclass", rng.choice(["Base", "A", "B", "C", "D1"])))
+            ops.append(("subclass", rng.choice(["Base", "A", "B", "C", "D1", "D1", "D2", "D3"])))
         elif r < 0.65:
-            ops.append(("instance", rng.choice(["Base", "A", "B", "C", "D1", "D2"])))
+            ops.append(("instance", rng.choice(["Base", "A", "B", "C", "D1", "D2", "D3", "D4"])))
         elif r < 0.69:
             ops.append(("update", rng.choice(["A", "B", "C"]), rng.randrange(9), rng.random() < 0.6))
         elif r < 0.85:
@@ -358,13 +358,18 @@ REDUCED = [
     ("remove", 0),
     ("remove", 1),
     ("subclass", "A"),
+    ("subclass", "D1"),
     ("instance", "B"),
     ("instance", "D1"),
+    ("instance", "D2"),
+    ("listen", "D2", "ev_one", False, False, False, False),
     ("update", "B", 0, True),
     ("dispatch", 0, "ev_one"),
     ("dispatch", 1, "ev_one"),
     ("dispatch_cls", 5, "ev_one"),
     ("dispatch_cls", 2, "ev_one"),
+    ("dispatch_cls", 6, "ev_one"),
+    ("dispatch", 2, "ev_one"),
 ]
 
 
@@ -568,7 +573,7 @@ def run(ctx):
                 continue
             if n == L and not ctx.budget_ok(0.35):
                 break
-            ops = setup + [REDUCED[i] for i in combo] + [("dispatch", 0, "ev_one"), ("dispatch_cls", 1, "ev_one"), ("dispatch", 1, "ev_one")]
+            ops = setup + [REDUCED[i] for i in combo] + [("dispatch", 0, "ev_one"), ("dispatch_cls", 1, "ev_one"), ("dispatch", 1, "ev_one"), ("dispatch", 2, "ev_one"), ("dispatch_cls", 5, "ev_one"), ("dispatch_cls", 6, "ev_one")]
             run_history(ctx, event, exc, ops, "exhaustive")
             if idx in (1, 300, 3000):
                 ctx.sample({"history": ops})
